@@ -17,8 +17,10 @@ import (
 	"os/exec"
 	"sort"
 	"strconv"
+	"runtime"
 	"strings"
 	"sync"
+	"sync/atomic"
 	"time"
 
 	"github.com/go-logr/logr"
@@ -26,6 +28,7 @@ import (
 	"go.opentelemetry.io/otel"
 	"go.opentelemetry.io/otel/attribute"
 	"go.opentelemetry.io/otel/metric"
+	"go.opentelemetry.io/otel/sdk/instrumentation"
 	sdkmetric "go.opentelemetry.io/otel/sdk/metric"
 	"go.opentelemetry.io/otel/sdk/metric/metricdata"
 
@@ -42,8 +45,12 @@ type KV struct {
 
 type ViewSpec struct {
 	CName  string   `json:"cn,omitempty"`
+	CDesc  string   `json:"cd,omitempty"`
 	CKind  int      `json:"ck,omitempty"` // 0 = any, else instrument kind tag 1..7
 	CUnit  string   `json:"cu,omitempty"`
+	CSName string   `json:"csn,omitempty"` // scope criteria: name, version, schema URL
+	CSVer  string   `json:"csv,omitempty"`
+	CSURL  string   `json:"csu,omitempty"`
 	MName  string   `json:"mn,omitempty"`
 	MDesc  string   `json:"md,omitempty"`
 	MUnit  string   `json:"mu,omitempty"`
@@ -58,6 +65,9 @@ type InstSpec struct {
 	Unit  string `json:"u,omitempty"`
 	Kind  int    `json:"k"` // 1 counter 2 updown 3 histogram 4 obs counter 5 obs updown 6 obs gauge 7 gauge
 	Float bool   `json:"f,omitempty"`
+	SName string `json:"sn,omitempty"` // instrumentation scope of the meter that creates it
+	SVer  string `json:"sv,omitempty"`
+	SURL  string `json:"su,omitempty"`
 }
 
 type Event struct {
@@ -190,11 +200,25 @@ func runScenario(sc Scenario) (res Result) {
 			}
 			st.AttributeFilter = attribute.NewAllowKeysFilter(keys...)
 		}
-		views = append(views, sdkmetric.NewView(sdkmetric.Instrument{Name: v.CName, Kind: sdkmetric.InstrumentKind(v.CKind), Unit: v.CUnit}, st))
+		views = append(views, sdkmetric.NewView(sdkmetric.Instrument{Name: v.CName, Description: v.CDesc, Kind: sdkmetric.InstrumentKind(v.CKind), Unit: v.CUnit,
+			Scope: instrumentation.Scope{Name: v.CSName, Version: v.CSVer, SchemaURL: v.CSURL}}, st))
 	}
 	mp := sdkmetric.NewMeterProvider(sdkmetric.WithReader(reader), sdkmetric.WithView(views...))
 	defer mp.Shutdown(ctx)
-	m := mp.Meter("c12")
+	// one meter per instrumentation scope used by the scenario
+	type scopeKey struct{ n, v, u string }
+	meters := map[scopeKey]metric.Meter{}
+	var meterOrder []scopeKey
+	meterOf := func(is InstSpec) (metric.Meter, scopeKey) {
+		k := scopeKey{is.SName, is.SVer, is.SURL}
+		if m, ok := meters[k]; ok {
+			return m, k
+		}
+		m := mp.Meter(is.SName, metric.WithInstrumentationVersion(is.SVer), metric.WithSchemaURL(is.SURL))
+		meters[k] = m
+		meterOrder = append(meterOrder, k)
+		return m, k
+	}
 
 	sets := make([]attribute.Set, len(sc.Pool))
 	for i, kvs := range sc.Pool {
@@ -210,9 +234,10 @@ func runScenario(sc Scenario) (res Result) {
 	recs := make([]recorder, len(sc.Insts))
 	obsI := map[int]metric.Int64Observable{}
 	obsF := map[int]metric.Float64Observable{}
-	var observables []metric.Observable
+	observables := map[scopeKey][]metric.Observable{}
 	for idx, is := range sc.Insts {
 		d, u := is.Desc, is.Unit
+		m, mk := meterOf(is)
 		switch {
 		case is.Kind == 1 && !is.Float:
 			c, _ := m.Int64Counter(is.Name, metric.WithDescription(d), metric.WithUnit(u))
@@ -260,17 +285,25 @@ func runScenario(sc Scenario) (res Result) {
 			panic("harness: bad instrument kind")
 		}
 		if o, ok := obsI[idx]; ok && o != nil {
-			observables = append(observables, o)
+			observables[mk] = append(observables[mk], o)
 		}
 		if o, ok := obsF[idx]; ok && o != nil {
-			observables = append(observables, o)
+			observables[mk] = append(observables[mk], o)
 		}
 	}
 	// One callback replays, in history order, the observations staged since the last collection.
+	// (aggregators are never shared between meters, so the order of the meters' callbacks does not matter)
 	var pending []staged
-	if len(observables) > 0 {
-		_, err := m.RegisterCallback(func(_ context.Context, o metric.Observer) error {
+	for _, mk := range meterOrder {
+		if len(observables[mk]) == 0 {
+			continue
+		}
+		mk := mk
+		_, err := meters[mk].RegisterCallback(func(_ context.Context, o metric.Observer) error {
 			for _, p := range pending {
+				if is := sc.Insts[p.inst]; (scopeKey{is.SName, is.SVer, is.SURL}) != mk {
+					continue
+				}
 				if oi, ok := obsI[p.inst]; ok {
 					o.ObserveInt64(oi, p.v, metric.WithAttributeSet(p.set))
 				} else if of, ok := obsF[p.inst]; ok {
@@ -278,7 +311,7 @@ func runScenario(sc Scenario) (res Result) {
 				}
 			}
 			return nil
-		}, observables...)
+		}, observables[mk]...)
 		if err != nil {
 			res.Odd = "RegisterCallback: " + err.Error()
 		}
@@ -333,7 +366,7 @@ func extract(rm *metricdata.ResourceMetrics, res *Result) []MetricObs {
 	out := []MetricObs{}
 	for _, sm := range rm.ScopeMetrics {
 		for _, md := range sm.Metrics {
-			mo := MetricObs{Name: md.Name, Points: []PointObs{}}
+			mo := MetricObs{Name: sm.Scope.Name + "\x00" + sm.Scope.Version + "\x00" + sm.Scope.SchemaURL + "\x00" + md.Name, Points: []PointObs{}}
 			switch d := md.Data.(type) {
 			case metricdata.Sum[int64]:
 				mo.Meta = monoFlag(d.IsMonotonic) + deltaFlag(d.Temporality)
@@ -418,17 +451,273 @@ func childMain() {
 	if err != nil {
 		os.Exit(3)
 	}
-	var scs []Scenario
-	if err := json.Unmarshal(in, &scs); err != nil {
+	var job childJob
+	if err := json.Unmarshal(in, &job); err != nil {
 		fmt.Fprintln(os.Stderr, "child: bad input:", err)
 		os.Exit(3)
 	}
-	out := make([]Result, len(scs))
-	for i, sc := range scs {
-		out[i] = runScenario(sc)
+	var out childOut
+	out.Res = make([]Result, len(job.Scs))
+	for i, sc := range job.Scs {
+		out.Res[i] = runScenario(sc)
+	}
+	out.Conc = make([]ConcResult, len(job.Conc))
+	for i, cr := range job.Conc {
+		out.Conc[i] = runConc(cr)
 	}
 	b, _ := json.Marshal(out)
 	os.Stdout.Write(b)
+}
+
+type childJob struct {
+	Scs  []Scenario  `json:"scs"`
+	Conc []ConcRound `json:"conc"`
+}
+
+type childOut struct {
+	Res  []Result     `json:"res"`
+	Conc []ConcResult `json:"conc"`
+}
+
+// ---- concurrent recording under a limit (free-running fragment) ----
+//
+// One round: a fresh provider, one instrument; the main goroutine records Prefill distinct sets (the
+// aggregator is then one slot from the limit), G goroutines are released together and each records its
+// list, starting with a set nobody has recorded yet; one Collect follows.  The points are judged by
+// order-independent clauses only (Spec.order_free_b), so the unchanged code can never fail a round.
+
+type ConcRec struct {
+	A int   `json:"a"`
+	V int64 `json:"v"`
+}
+
+type ConcRound struct {
+	L       int         `json:"L"`
+	Env     string      `json:"env"`
+	Kind    int         `json:"k"`   // 1 counter, 2 up-down counter, 3 histogram, 7 gauge
+	Agg     int         `json:"agg"` // 0 default, 3 sum, 5 explicit histogram, 6 exponential histogram
+	Delta   bool        `json:"delta"`
+	Float   bool        `json:"f,omitempty"`
+	NSets   int         `json:"nsets"`
+	Prefill []ConcRec   `json:"prefill"`
+	Recs    [][]ConcRec `json:"recs"` // per goroutine
+	Reps    int         `json:"reps"` // the round is repeated on fresh providers; the most suspicious observation is the one reported
+}
+
+type ConcResult struct {
+	Metrics int        `json:"metrics"`
+	Meta    int        `json:"m"`
+	Points  []PointObs `json:"p"`
+	Panic   string     `json:"panic,omitempty"`
+	Odd     string     `json:"odd,omitempty"`
+}
+
+// runConc repeats the round and returns the observation to be judged: the first one that looks wrong to a
+// cheap pre-check (more than L points, totals or counts off), else the last one.  The pre-check only selects;
+// the verdict on the selected observation is Spec.order_free_b's.
+func runConc(cr ConcRound) (res ConcResult) {
+	var total int64
+	var n uint64
+	for _, p := range cr.Prefill {
+		total += p.V
+		n++
+	}
+	for _, l := range cr.Recs {
+		for _, x := range l {
+			total += x.V
+			n++
+		}
+	}
+	for i := 0; i < max(1, cr.Reps); i++ {
+		res = runConcOnce(cr)
+		if res.Panic != "" || res.Odd != "" || res.Metrics != 1 || len(res.Points) > cr.L {
+			return res
+		}
+		var sv int64
+		var sc uint64
+		for _, p := range res.Points {
+			sv += p.Val
+			sc += p.Cnt
+		}
+		tag := res.Meta % 10
+		nosum := cr.Kind == 2 || cr.Kind == 7
+		if (tag == 0 && sv != total) || ((tag == 2 || tag == 3) && (sc != n || (!nosum && sv != total))) {
+			return res
+		}
+	}
+	return res
+}
+
+func runConcOnce(cr ConcRound) (res ConcResult) {
+	defer func() {
+		if e := recover(); e != nil {
+			res.Panic = fmt.Sprint(e)
+		}
+	}()
+	ctx := context.Background()
+	reader := sdkmetric.NewManualReader(sdkmetric.WithTemporalitySelector(func(sdkmetric.InstrumentKind) metricdata.Temporality {
+		if cr.Delta {
+			return metricdata.DeltaTemporality
+		}
+		return metricdata.CumulativeTemporality
+	}))
+	opts := []sdkmetric.Option{sdkmetric.WithReader(reader)}
+	if cr.Agg != 0 {
+		opts = append(opts, sdkmetric.WithView(sdkmetric.NewView(sdkmetric.Instrument{Name: "c"}, sdkmetric.Stream{Aggregation: aggregationOf(cr.Agg)})))
+	}
+	mp := sdkmetric.NewMeterProvider(opts...)
+	defer mp.Shutdown(ctx)
+	m := mp.Meter("conc")
+	sets := make([]attribute.Set, cr.NSets)
+	for i := range sets {
+		sets[i] = attribute.NewSet(attribute.Int("id", i))
+	}
+	var rec func(v int64, s attribute.Set)
+	switch {
+	case cr.Kind == 1 && !cr.Float:
+		c, _ := m.Int64Counter("c")
+		rec = func(v int64, s attribute.Set) { c.Add(ctx, v, metric.WithAttributeSet(s)) }
+	case cr.Kind == 1:
+		c, _ := m.Float64Counter("c")
+		rec = func(v int64, s attribute.Set) { c.Add(ctx, float64(v), metric.WithAttributeSet(s)) }
+	case cr.Kind == 2 && !cr.Float:
+		c, _ := m.Int64UpDownCounter("c")
+		rec = func(v int64, s attribute.Set) { c.Add(ctx, v, metric.WithAttributeSet(s)) }
+	case cr.Kind == 2:
+		c, _ := m.Float64UpDownCounter("c")
+		rec = func(v int64, s attribute.Set) { c.Add(ctx, float64(v), metric.WithAttributeSet(s)) }
+	case cr.Kind == 3 && !cr.Float:
+		c, _ := m.Int64Histogram("c")
+		rec = func(v int64, s attribute.Set) { c.Record(ctx, v, metric.WithAttributeSet(s)) }
+	case cr.Kind == 3:
+		c, _ := m.Float64Histogram("c")
+		rec = func(v int64, s attribute.Set) { c.Record(ctx, float64(v), metric.WithAttributeSet(s)) }
+	case cr.Kind == 7 && !cr.Float:
+		c, _ := m.Int64Gauge("c")
+		rec = func(v int64, s attribute.Set) { c.Record(ctx, v, metric.WithAttributeSet(s)) }
+	default:
+		c, _ := m.Float64Gauge("c")
+		rec = func(v int64, s attribute.Set) { c.Record(ctx, float64(v), metric.WithAttributeSet(s)) }
+	}
+	for _, p := range cr.Prefill {
+		rec(p.V, sets[p.A])
+	}
+	// spin barrier: every goroutine is running before any of them records
+	var ready, goFlag atomic.Int32
+	var wg sync.WaitGroup
+	for g := range cr.Recs {
+		wg.Add(1)
+		go func(list []ConcRec) {
+			defer wg.Done()
+			ready.Add(1)
+			for goFlag.Load() == 0 {
+				runtime.Gosched()
+			}
+			for _, x := range list {
+				rec(x.V, sets[x.A])
+			}
+		}(cr.Recs[g])
+	}
+	for int(ready.Load()) < len(cr.Recs) {
+		runtime.Gosched()
+	}
+	goFlag.Store(1)
+	wg.Wait()
+	var rm metricdata.ResourceMetrics
+	if err := reader.Collect(ctx, &rm); err != nil {
+		res.Odd = "Collect: " + err.Error()
+	}
+	var tmp Result
+	for _, mo := range extract(&rm, &tmp) {
+		res.Metrics++
+		res.Meta = mo.Meta
+		res.Points = mo.Points
+	}
+	if tmp.Odd != "" {
+		res.Odd = tmp.Odd
+	}
+	return res
+}
+
+func genConc(r *vgen.Rand, combo int) ConcRound {
+	L := 2 + r.Intn(4)
+	cr := ConcRound{L: L, Env: strconv.Itoa(L), Delta: combo%2 == 1, Float: r.Chance(1, 4)}
+	switch combo / 2 % 6 {
+	case 0:
+		cr.Kind = 1 // sum
+	case 1:
+		cr.Kind = 7 // last value
+	case 2:
+		cr.Kind = 3 // explicit bucket histogram
+	case 3:
+		cr.Kind, cr.Agg = 3, 6 // exponential histogram
+	case 4:
+		cr.Kind, cr.Agg = 2, 5 // histogram without a sum
+	case 5:
+		cr.Kind, cr.Agg = 1, 6 // counter as exponential histogram
+	}
+	G := 4 + r.Intn(5)
+	val := func() int64 {
+		if cr.Kind == 2 || cr.Kind == 7 {
+			return int64(r.Intn(41)) - 20
+		}
+		return int64(1 + r.Intn(40))
+	}
+	// prefill so that exactly one more new set fits under the limit (sometimes none, sometimes two)
+	pre := max(0, L-2-r.Intn(2)+r.Intn(2))
+	if pre > L-1 {
+		pre = L - 1
+	}
+	next := 0
+	for i := 0; i < pre; i++ {
+		cr.Prefill = append(cr.Prefill, ConcRec{next, val()})
+		next++
+	}
+	shared := next // one set every goroutine also records (new to the aggregator as well)
+	next++
+	for g := 0; g < G; g++ {
+		list := []ConcRec{{next, val()}} // first measurement: a set nobody has recorded yet
+		next++
+		for k := r.Intn(4); k > 0; k-- {
+			switch r.Intn(3) {
+			case 0:
+				list = append(list, ConcRec{shared, val()})
+			case 1:
+				list = append(list, ConcRec{r.Intn(next), val()})
+			default:
+				list = append(list, ConcRec{next, val()})
+				next++
+			}
+		}
+		cr.Recs = append(cr.Recs, list)
+	}
+	cr.NSets = next
+	cr.Reps = 30
+	return cr
+}
+
+func concTerm(cr ConcRound, res ConcResult) string {
+	var sets, vals, pts []string
+	for i := 0; i < cr.NSets; i++ {
+		sets = append(sets, setCoq([]KV{{"id", "i", strconv.Itoa(i)}}))
+	}
+	for _, p := range cr.Prefill {
+		vals = append(vals, vgen.Z(p.V))
+	}
+	for _, l := range cr.Recs {
+		for _, x := range l {
+			vals = append(vals, vgen.Z(x.V))
+		}
+	}
+	for _, p := range res.Points {
+		pts = append(pts, vgen.Pair(setCoq(p.Attrs), vgen.Pair(vgen.Z(p.Val), vgen.N(p.Cnt))))
+	}
+	tag := res.Meta % 10
+	hist := tag == 2 || tag == 3
+	nosum := cr.Kind == 2 || cr.Kind == 7
+	sums := (tag == 0 || hist) && !(hist && nosum)
+	return vgen.App("CConc", vgen.N(uint64(cr.L)), vgen.Bool(sums), vgen.Bool(hist), vgen.Bool(tag == 1),
+		vgen.List(sets), vgen.List(vals), vgen.List(pts))
 }
 
 // ---- generator (parent side) ----
@@ -497,12 +786,31 @@ func genPool(r *vgen.Rand, n int) [][]KV {
 
 var instNames = []string{"req", "lat", "Req", "q.len", "rx", "ab", "abc"}
 
+type scopeSpec struct{ n, v, u string }
+
+var scopePool = []scopeSpec{{"lib-a", "", ""}, {"lib-b", "", ""}, {"lib-a", "1.0", ""}, {"lib-a", "2.0", ""},
+	{"lib-a", "1.0", "https://s/1"}, {"lib-b", "1.0", "https://s/2"}, {"lib-a", "", "https://s/1"}}
+
 func genInsts(r *vgen.Rand) []InstSpec {
 	n := vgen.Pick(r, []int{1, 1, 1, 2, 2, 3, 4})
+	// scopes (meters) of the scenario: one, or (about 45%) two or three; with several scopes the
+	// same instrument name tends to be created on more than one of them
+	scopes := []scopeSpec{scopePool[r.Intn(len(scopePool))]}
+	if r.Chance(9, 20) {
+		n = max(n, 2)
+		for k := 1 + r.Intn(2); k > 0; k-- {
+			scopes = append(scopes, scopePool[r.Intn(len(scopePool))])
+		}
+	}
 	seen := map[string]bool{}
 	var out []InstSpec
 	for len(out) < n {
 		is := InstSpec{Name: vgen.Pick(r, instNames), Kind: 1 + r.Intn(7), Float: r.Chance(1, 4)}
+		sc := scopes[r.Intn(len(scopes))]
+		if len(out) > 0 && len(scopes) > 1 && r.Chance(1, 2) { // same instrument, other meter
+			is = out[r.Intn(len(out))]
+		}
+		is.SName, is.SVer, is.SURL = sc.n, sc.v, sc.u
 		if len(out) == 0 && r.Chance(1, 2) {
 			is.Kind = vgen.Pick(r, []int{1, 1, 2, 3})
 		}
@@ -512,7 +820,7 @@ func genInsts(r *vgen.Rand) []InstSpec {
 		if r.Chance(1, 5) {
 			is.Unit = vgen.Pick(r, []string{"ms", "By"})
 		}
-		key := fmt.Sprintf("%s|%s|%s|%d|%v", is.Name, is.Desc, is.Unit, is.Kind, is.Float)
+		key := fmt.Sprintf("%s|%s|%s|%d|%v|%s|%s|%s", is.Name, is.Desc, is.Unit, is.Kind, is.Float, is.SName, is.SVer, is.SURL)
 		if seen[key] {
 			continue
 		}
@@ -565,6 +873,30 @@ func genViews(r *vgen.Rand, insts []InstSpec) []ViewSpec {
 		case 4:
 			v.CName = "" // empty criteria (unless a kind/unit is added below): refused by NewView
 		}
+		// scope and description criteria: the target's own (so the view applies to it only), or a near miss
+		if r.Chance(2, 5) {
+			other := scopePool[r.Intn(len(scopePool))]
+			switch r.Intn(7) {
+			case 0, 1:
+				v.CSName = target.SName
+			case 2:
+				v.CSName, v.CSVer = target.SName, target.SVer
+			case 3:
+				v.CSName, v.CSVer, v.CSURL = target.SName, target.SVer, target.SURL
+			case 4:
+				v.CSVer = vgen.Pick(r, []string{"1.0", "2.0", target.SVer})
+			case 5:
+				v.CSURL = vgen.Pick(r, []string{"https://s/1", "https://s/2", target.SURL})
+			case 6:
+				v.CSName, v.CSVer, v.CSURL = other.n, other.v, other.u
+			}
+			if r.Chance(1, 3) && v.MName == "" { // scope-only or scope + wildcard
+				v.CName = vgen.Pick(r, []string{"", "*", "r*", "?eq", "a*"})
+			}
+		}
+		if r.Chance(1, 8) {
+			v.CDesc = vgen.Pick(r, []string{"d1", "d2", target.Desc})
+		}
 		switch r.Intn(10) {
 		case 0, 1, 2: // rename
 			v.MName = vgen.Pick(r, []string{"out", "Out", "z", "req", "lat"})
@@ -590,6 +922,9 @@ func genViews(r *vgen.Rand, insts []InstSpec) []ViewSpec {
 		if r.Chance(1, 2) {
 			v.Filter = true
 			v.Keys = genKeys(r)
+		}
+		if strings.ContainsAny(v.CName, "*?") && r.Chance(3, 4) {
+			v.MName = "" // keep most wildcard views usable (a wildcard view with a name is refused)
 		}
 		out = append(out, v)
 	}
@@ -758,6 +1093,26 @@ func corpus() []Scenario {
 				{I: 2, A: 1, V: -9}, {I: 0, A: 2, V: 9}, {Collect: true}},
 			Note: "histogram as sum and exponential histogram, gauge as histogram, incompatible last-value on an up-down counter"})
 	}
+	// F-C12-2 (fixed by 34e0642): a no-sum histogram must not inherit the Sum of the metric that used its slot before
+	out = append(out, Scenario{L: 0, Env: "", TMask: 8, Reuse: true, Insts: []InstSpec{{Name: "h", Kind: 3}, {Name: "g", Kind: 7}},
+		Views: []ViewSpec{{CName: "g", Agg: 5}}, Pool: [][]KV{id(0)},
+		Events: []Event{{I: 0, A: 0, V: 44}, {I: 1, A: 0, V: 3}, {Collect: true}, {I: 1, A: 0, V: 5}, {Collect: true}},
+		Note:   "F-C12-2: stale Sum through a reused ResourceMetrics"})
+	// scopes: the same instrument on two meters; views restricted to one scope must leave the other alone
+	two := []InstSpec{{Name: "req", Kind: 1, SName: "lib-a", SVer: "1.0"}, {Name: "req", Kind: 1, SName: "lib-b", SVer: "1.0"},
+		{Name: "req", Kind: 1, SName: "lib-a", SVer: "2.0", SURL: "https://s/1"}}
+	ev3 := []Event{{I: 0, A: 0, V: 1}, {I: 1, A: 1, V: 2}, {I: 2, A: 2, V: 4}, {I: 0, A: 1, V: 8}, {I: 1, A: 0, V: 16}, {Collect: true}, {I: 2, A: 0, V: 32}, {Collect: true}}
+	for _, vs := range [][]ViewSpec{
+		{{CName: "req", CSName: "lib-a", Agg: 2}},
+		{{CName: "*", CSName: "lib-b", Agg: 2}},
+		{{CName: "r*", CSName: "lib-a", CSVer: "2.0", Filter: true, Keys: []string{}}},
+		{{CName: "req", CSName: "lib-a", MName: "renamed"}, {CSURL: "https://s/1", Agg: 5}},
+		{{CSVer: "1.0", Agg: 2}, {CName: "?eq", CSName: "lib-a", CSVer: "1.0", Filter: true, Keys: []string{"a"}}},
+		{{CName: "req", CDesc: "d1", Agg: 2}, {CName: "req", CKind: 2, Agg: 2}, {CName: "req", CUnit: "ms", Agg: 2}},
+	} {
+		out = append(out, Scenario{L: 3, Env: "3", TMask: 0xfe, Insts: two, Views: vs, Pool: [][]KV{ab(0, 0), ab(0, 1), ab(1, 0)}, Events: ev3,
+			Note: "same instrument on several meters; scope / description / kind / unit criteria with near misses"})
+	}
 	return out
 }
 
@@ -787,11 +1142,12 @@ func caseTerm(sc Scenario, res Result) string {
 		if v.Filter {
 			f = vgen.Some(strList(v.Keys))
 		}
-		views = append(views, vgen.App("mkview", vgen.HxS(v.CName), vgen.N(uint64(v.CKind)), vgen.HxS(v.CUnit),
-			vgen.HxS(v.MName), vgen.HxS(v.MDesc), vgen.HxS(v.MUnit), vgen.N(uint64(v.Agg)), f))
+		views = append(views, vgen.App("mkview", vgen.HxS(v.CName), vgen.HxS(v.CDesc), vgen.N(uint64(v.CKind)), vgen.HxS(v.CUnit),
+			vgen.HxS(v.CSName), vgen.HxS(v.CSVer), vgen.HxS(v.CSURL), vgen.HxS(v.MName), vgen.HxS(v.MDesc), vgen.HxS(v.MUnit), vgen.N(uint64(v.Agg)), f))
 	}
 	for _, i := range sc.Insts {
-		insts = append(insts, vgen.App("mkinst", vgen.HxS(i.Name), vgen.HxS(i.Desc), vgen.HxS(i.Unit), vgen.N(uint64(i.Kind)), vgen.Bool(i.Float)))
+		insts = append(insts, vgen.App("mkinst", vgen.HxS(i.Name), vgen.HxS(i.Desc), vgen.HxS(i.Unit), vgen.N(uint64(i.Kind)), vgen.Bool(i.Float),
+			vgen.HxS(i.SName), vgen.HxS(i.SVer), vgen.HxS(i.SURL)))
 	}
 	for _, s := range res.Pool {
 		pool = append(pool, setCoq(s))
@@ -821,7 +1177,15 @@ func caseTerm(sc Scenario, res Result) string {
 // ---- parent ----
 
 func runBatch(env string, scs []Scenario) ([]Result, error) {
-	in, _ := json.Marshal(scs)
+	out, err := runJob(env, childJob{Scs: scs})
+	if err != nil {
+		return nil, err
+	}
+	return out.Res, nil
+}
+
+func runJob(env string, job childJob) (*childOut, error) {
+	in, _ := json.Marshal(job)
 	ctx, cancel := context.WithTimeout(context.Background(), 120*time.Second)
 	defer cancel()
 	cmd := exec.CommandContext(ctx, os.Args[0], "-child")
@@ -842,11 +1206,11 @@ func runBatch(env string, scs []Scenario) ([]Result, error) {
 	if err != nil {
 		return nil, fmt.Errorf("child (limit %q) failed: %v: %s", env, err, tail(stderr.String(), 2000))
 	}
-	var res []Result
-	if err := json.Unmarshal(out, &res); err != nil || len(res) != len(scs) {
+	var res childOut
+	if err := json.Unmarshal(out, &res); err != nil || len(res.Res) != len(job.Scs) || len(res.Conc) != len(job.Conc) {
 		return nil, fmt.Errorf("child (limit %q): unreadable result (%v)", env, err)
 	}
-	return res, nil
+	return &res, nil
 }
 
 func tail(s string, n int) string {
@@ -869,12 +1233,14 @@ func main() {
 	// different seeds give unrelated scenario sets.
 	r := vgen.NewRand(o.Seed).Fork()
 	w := vgen.NewWriter(o.Out, "C12.Defs C12.Model C12.Spec C12.Corr", "case", 96)
-	w.Rule = "scenarios = (cardinality limit via OTEL_GO_X_CARDINALITY_LIMIT in a child process, temporality selector, views, instruments, history of measurements over 1-30 attribute sets and 1-6 collections); " +
+	w.Rule = "deterministic fragment: scenarios = (cardinality limit via OTEL_GO_X_CARDINALITY_LIMIT in a child process, temporality selector, views, instruments, history of measurements over 1-30 attribute sets and 1-6 collections); " +
 		"observed: points per metric per ManualReader.Collect, sorted by attribute set; a case is non-trivial when the limit redirected a measurement to the overflow set, " +
-		"a filter merged distinct sets, more than one view matched an instrument, or a view dropped/renamed/re-aggregated a stream; distinct = distinct Coq case terms"
+		"a filter merged distinct sets, more than one view matched an instrument, or a view dropped/renamed/re-aggregated a stream; distinct = distinct Coq case terms; " +
+		"free-running fragment: rounds of 4-8 goroutines released by a barrier, each recording first a not yet recorded attribute set, on an aggregator one slot from its limit (2..5), " +
+		"every aggregator kind and temporality; one collection judged by order-independent clauses (at most L sets, only offered sets or the overflow set, totals and counts conserved); non-trivial when exactly L sets were reported"
 
 	scs := corpus()
-	nGen := o.Count(900, 8000)
+	nGen := o.Count(750, 8000)
 	for i := 0; i < nGen; i++ {
 		scs = append(scs, genScenario(r.Fork(), o.Tier == "thorough"))
 	}
@@ -977,6 +1343,22 @@ func main() {
 		w.Tally(fmt.Sprintf("sets:%02d-%02d", len(sc.Pool)/5*5, len(sc.Pool)/5*5+4))
 		w.Tally(fmt.Sprintf("views:%d", len(sc.Views)))
 		w.Tally(fmt.Sprintf("instruments:%d", len(sc.Insts)))
+		scopesSeen := map[string]bool{}
+		for _, is := range sc.Insts {
+			scopesSeen[is.SName+"|"+is.SVer+"|"+is.SURL] = true
+		}
+		w.Tally(fmt.Sprintf("scopes:%d", len(scopesSeen)))
+		for _, v := range sc.Views {
+			if v.CSName != "" || v.CSVer != "" || v.CSURL != "" {
+				w.Tally("view:scope-criteria")
+				if v.Agg == 2 {
+					w.Tally("view:scope-criteria+drop")
+				}
+			}
+			if v.CDesc != "" {
+				w.Tally("view:description-criteria")
+			}
+		}
 		w.Tally(fmt.Sprintf("collections:%d", len(res.Obs)))
 		for _, is := range sc.Insts {
 			w.Tally(fmt.Sprintf("kind:%d float:%v", is.Kind, is.Float))
@@ -1005,6 +1387,79 @@ func main() {
 			}
 		}
 		w.Add(caseTerm(sc, res), sc, kind, overflowed || merged || len(sc.Views) > 0)
+	}
+	// ---- concurrent recording under a limit ----
+	nConc := o.Count(420, 6000)
+	rc := r.Fork()
+	concs := make([]ConcRound, nConc)
+	concByEnv := map[string][]int{}
+	var concEnvs []string
+	for i := range concs {
+		concs[i] = genConc(rc.Fork(), i)
+		if _, ok := concByEnv[concs[i].Env]; !ok {
+			concEnvs = append(concEnvs, concs[i].Env)
+		}
+		concByEnv[concs[i].Env] = append(concByEnv[concs[i].Env], i)
+	}
+	type cbatch struct {
+		env string
+		idx []int
+	}
+	var cbatches []cbatch
+	for _, e := range concEnvs {
+		idx := concByEnv[e]
+		for len(idx) > 0 {
+			n := min(60, len(idx))
+			cbatches = append(cbatches, cbatch{e, idx[:n]})
+			idx = idx[n:]
+		}
+	}
+	concRes := make([]*ConcResult, nConc)
+	var cmu sync.Mutex
+	var cwg sync.WaitGroup
+	csem := make(chan struct{}, 4) // few children at a time: the goroutines of a round need cores to really run in parallel
+	for _, b := range cbatches {
+		cwg.Add(1)
+		go func(b cbatch) {
+			defer cwg.Done()
+			csem <- struct{}{}
+			defer func() { <-csem }()
+			job := childJob{}
+			for _, i := range b.idx {
+				job.Conc = append(job.Conc, concs[i])
+			}
+			out, err := runJob(b.env, job)
+			cmu.Lock()
+			defer cmu.Unlock()
+			if err != nil {
+				// the runtime killed the child (e.g. "fatal error: concurrent map read and map write") or it hung
+				w.Violation("child process recording concurrently under a cardinality limit died: "+err.Error(),
+					map[string]any{"limit": b.env, "rounds": len(b.idx), "first_round": concs[b.idx[0]]})
+				return
+			}
+			for j, i := range b.idx {
+				concRes[i] = &out.Conc[j]
+			}
+		}(b)
+	}
+	cwg.Wait()
+	for i, cr := range concs {
+		res := concRes[i]
+		if res == nil {
+			continue
+		}
+		if res.Panic != "" {
+			w.Violation("panic while recording concurrently: "+res.Panic, cr)
+			continue
+		}
+		if res.Odd != "" || res.Metrics != 1 {
+			w.Violation(fmt.Sprintf("concurrent round: %d metrics reported (1 expected) %s", res.Metrics, res.Odd), cr)
+			continue
+		}
+		w.Tally(fmt.Sprintf("concurrent:kind=%d agg=%d delta=%v", cr.Kind, cr.Agg, cr.Delta))
+		w.Tally(fmt.Sprintf("concurrent:goroutines=%d", len(cr.Recs)))
+		w.Tally(fmt.Sprintf("concurrent:points-minus-limit=%d", len(res.Points)-cr.L))
+		w.Add(concTerm(cr, *res), cr, "concurrent", len(res.Points) == cr.L)
 	}
 	if err := w.Flush(); err != nil {
 		fmt.Fprintln(os.Stderr, err)
